@@ -91,6 +91,9 @@ proof fn lemma_arg_ty_only_first_two(b: MemberBuiltin, a: &SArgs)
         assert forall|k: int| 0 <= k implies !#[trigger] arg_wrong(b, a, k) by { if k >= 2 { assert(arg_ty(b, k) is None); } }
     }
 }
+// ---- calls of named functions --------------------------------------------------------------------------------------------------
+pub struct Errs { pub arity: bool, pub types: bool, pub undeclared: bool }
+pub struct FuncId { pub g: Ghost<int> }
 pub open spec fn fits(s: ValueType, a: ValueType) -> bool { !dynamic(a) && (dynamic(s) || s == a) }
 
 // static_ok is exactly "some runtime instantiation is applicable" (so the table above is not an independent invention)
@@ -135,6 +138,7 @@ UNIT = VUnit(
         Enum("ProcessCommandBuiltin", source="src/builtins/process.rs"),
         Enum("ProcessResultBuiltin", source="src/builtins/process.rs"),
         Enum("MemberBuiltin", source="src/builtins/mod.rs"),
+        Enum("GlobalBuiltin", source="src/builtins/mod.rs"),
         Raw(SPEC),
         Block("binary_operand_rule", within="check_expr", impl="impl Resolver",
               anchor=r"Expr::Binary \{ op, lhs, rhs, span \} =>",
@@ -225,5 +229,30 @@ UNIT = VUnit(
                         Rw("R6", r"self\.emit_error\(\s*\*span,.*?\}\],\s*\);?", "{ err_a = true; }", min_matches=1),
                         Rw("R6", r"self\.emit_error\(\s*\*index_span,.*?\}\],\s*\);?", "{ err_i = true; }", min_matches=1)],
               real_name="Resolver::check_expr (Expr::Index arm: operand typing rule)"),
+        Raw("impl GlobalBuiltin {"),
+        Fn("arity", label="global_arity", source="src/builtins/mod.rs", impl="impl Builtin for GlobalBuiltin",
+           sig="pub fn arity(&self) -> (r: usize)", expect_sig=r"fn arity\(&self\) -> usize",
+           ensures=["r == 1"], vacuity="-", real_name="<GlobalBuiltin as Builtin>::arity"),
+        Raw("}"),
+        # a call `name(args)`: a built-in name is checked against the built-in's arity (and `command` against a string argument), a
+        # user function in scope against its parameter count, anything else is an undeclared identifier; each error in its own category
+        Block("call_rule", within="check_expr", impl="impl Resolver", arm=True,
+              anchor=r"match callee \{\s*Expr::Var\(func_name, \.\.\) =>",
+              sig="fn call_rule(b0: Option<GlobalBuiltin>, f0: Option<(FuncId, usize)>, args: &SArgs) -> (e: Errs)",
+              prologue="    let mut e_FunctionCallArity = false; let mut e_TypeMismatch = false; let mut e_UndeclaredIdentifier = false;",
+              epilogue="    Errs { arity: e_FunctionCallArity, types: e_TypeMismatch, undeclared: e_UndeclaredIdentifier }",
+              ensures=["b0 is Some ==> e.arity == (args.n() != 1) && !e.undeclared",
+                       "b0 is Some ==> e.types == (b0->Some_0 is Command && args.n() >= 1 && args.tys@[0] is Some && args.tys@[0]->Some_0 != ValueType::String && !dynamic(args.tys@[0]->Some_0))",
+                       "b0 is None && f0 is Some ==> e.arity == (args.n() != f0->Some_0.1) && !e.undeclared && !e.types",
+                       "b0 is None && f0 is None ==> e.undeclared && !e.arity && !e.types"],
+              rewrites=[Rw("R11b", r"GlobalBuiltin::from_name\(func_name\)", "b0", min_matches=1),
+                        Rw("R11b", r"self\s*\.lookup_func\(func_name\)\s*\.map\(\|sig\| \(sig\.id, sig\.param_names\.len\(\)\)\)", "f0", min_matches=1),
+                        Rw("R13", r"self\.facts\.record_\w+\([^;]*\);|self\.record_stmt_callee\(callee_id\);", "", min_matches=3),
+                        Rw("R11b", r"args\.args\.len\(\)", "args.len()", min_matches=2),
+                        # let-chain with an inner `let`: `if A && B && let P = X && C && D { BODY }` -> nested ifs (no else branch)
+                        Rw("R10", r"if (matches!\(builtin, GlobalBuiltin::Command\))\s*&& !args\.args\.is_empty\(\)\s*&& let Some\(arg_ty\) = self\.infer_expr_type\(args\.args\[0\]\)\s*&& ([^{]+?)\s*\{(.*?)\n                            \}",
+                           r"if \1 && !args.is_empty() { if let Some(arg_ty) = args.ty_of(0) { if \2 {\3\n                            } } }", min_matches=1),
+                        Rw("R6", r"self\.emit_error\(\s*\*span,\s*SemanticError::(\w+),.*?\}\],\s*\);?", r"{ e_\1 = true; }", min_matches=4)],
+              real_name="Resolver::check_expr (Expr::Call on a named callee: arity / scope rule)"),
     ],
 )
